@@ -629,6 +629,11 @@ pub fn run(tier: &str) -> i32 {
                 let mut acc = Acc::new();
                 let d3 = Doc3::new(d);
                 let base = crate::gen::alpha::alphabet(d, crate::gen::alpha::AlphaSize::Singles, 3, true).base;
+                // whole-value comparisons of nodes whose member names are odd (member names of the document must be
+                // matched as they are, never as query text)
+                for q in ["$[?@==@]", "$[?@!=@]", "$..[?@==@]", "$[?@==$[0]]", "$[?@<=$[0]]", "$.*[?@==@]", "$[?@==$]", "$..[?@==$[0]]"] {
+                    lockstep(&mut acc, q, &d3, "odd names: whole-value comparisons");
+                }
                 for s in &base {
                     if let crate::model::ast::Sel::Name { val, raw } = s {
                         let t = if raw.starts_with('\'') || raw.starts_with('"') { raw.clone() } else { render::quote_single(val) };
